@@ -73,6 +73,9 @@ pub struct LirItem {
     /// full names of `ConstantAddress { name }` that are not constants of the
     /// runtime (those exist before the loop starts), no duplicates
     pub consts: Vec<String>,
+    /// how many `ConstantAddress { name }` instructions the body has per such
+    /// constant (same order as `consts`): one per read site of the constant
+    pub const_reads: Vec<usize>,
 }
 
 thread_local! {
@@ -96,6 +99,7 @@ pub(crate) fn record_lir(
         };
         let mut funcs: Vec<String> = Vec::new();
         let mut consts: Vec<String> = Vec::new();
+        let mut const_reads: Vec<usize> = Vec::new();
         for block in &item.blocks {
             for ins in &block.instructions {
                 match ins {
@@ -114,8 +118,12 @@ pub(crate) fn record_lir(
                     Instruction::ConstantAddress { name, .. } => {
                         if !is_runtime_constant(name) {
                             let s = type_info.full_name(name).as_str().to_string();
-                            if !consts.contains(&s) {
-                                consts.push(s);
+                            match consts.iter().position(|c| *c == s) {
+                                Some(i) => const_reads[i] += 1,
+                                None => {
+                                    consts.push(s);
+                                    const_reads.push(1);
+                                }
                             }
                         }
                     }
@@ -128,6 +136,7 @@ pub(crate) fn record_lir(
             constant,
             funcs,
             consts,
+            const_reads,
         });
     }
     LAST_LIR.with(|l| *l.borrow_mut() = Some(out));
